@@ -21,6 +21,7 @@
 #include <string.h>
 #include <sys/mman.h>
 #include <sys/stat.h>
+#include <sys/wait.h>
 #include <sys/types.h>
 #include <unistd.h>
 
@@ -271,8 +272,24 @@ int main(int argc, char **argv) {
   strcat(long_text, "ret\n");
   struct result ref[NALL];
   unsigned char *buf = malloc(CAPB);
-  /* single-threaded reference (hooks not installed yet) */
-  for (int k = 0; k < NALL; k++) work(&ITEMS[k], buf, &ref[k]);
+  /* single-threaded reference, computed in a child process: the threads below must be the first users of the library in this
+     process (state that the first instance of a process sets up is then set up by them, concurrently) */
+  {
+    int pfd[2];
+    if (pipe(pfd)) return 2;
+    pid_t rp = fork();
+    if (rp == 0) {
+      for (int k = 0; k < NALL; k++) work(&ITEMS[k], buf, &ref[k]);
+      ssize_t w = write(pfd[1], ref, sizeof ref); (void)w;
+      _exit(0);
+    }
+    close(pfd[1]);
+    size_t got = 0; ssize_t r;
+    while (got < sizeof ref && (r = read(pfd[0], (char *)ref + got, sizeof ref - got)) > 0) got += (size_t)r;
+    close(pfd[0]);
+    int st; waitpid(rp, &st, 0);
+    if (got != sizeof ref) return 2;
+  }
   al_verif.tbl = on_tbl;
   if (!strcmp(argv[1], "observe")) {
     for (int k = 0; k < NITEMS; k++) {
@@ -334,7 +351,16 @@ int main(int argc, char **argv) {
         if (v >= 1 && v <= n) s[nsched++] = v;
       }
       sched = s;
-      run_threads(n, rounds, ref);
+      /* every schedule runs in a process of its own, in which its threads are the first users of the library */
+      fflush(stdout);
+      pid_t sp = fork();
+      if (sp == 0) { alarm(20); run_threads(n, rounds, ref); fflush(stdout); _exit(0); }
+      int st = 0;
+      waitpid(sp, &st, 0);
+      if (!(WIFEXITED(st) && WEXITSTATUS(st) == 0)) {
+        printf("{\"e\":\"Tsan\",\"threads\":%d,\"reports\":0,\"exit\":%d}\n{\"e\":\"Reset\"}\n", n, WIFSIGNALED(st) ? -WTERMSIG(st) : WEXITSTATUS(st));
+        fflush(stdout);
+      }
     }
     return 0;
   }
